@@ -6,7 +6,7 @@ from pyvc.engine import Obj, NVec, Builtin, Frame, FuncVal
 from pyvc import library as L
 from pyvc.values import PyExc, to_real, to_int, Unsupported
 
-FUNCS = ['t2listing.t2listing.history', 't2listing.t2listing.skip_to_table_TOUGH2', 't2listing.t2listing.skip_to_table_TOUGHplus',
+FUNCS = ['t2listing.t2listing.history', 't2listing.t2listing.table_expected_floats', 't2listing.t2listing.skip_to_table_TOUGH2', 't2listing.t2listing.skip_to_table_TOUGHplus',
          't2listing.t2listing.skip_to_table_AUTOUGH2', 't2listing.t2listing.skip_to_results_line',
          't2listing.t2listing.read_table_line_TOUGH2', 't2listing.t2listing.read_table_line_AUTOUGH2']
 
@@ -214,6 +214,85 @@ def p_read_loop_sign(e, _a=None):
     e.explore(prog, 'read_loop_sign')
 
 
+# ---- (3b) the whole history() on a listing record: values, times and restored position -------------
+
+def p_history_whole(e, arg):
+    """The real t2listing.history run by the executor on a listing record with three full result sets and (AUTOUGH2) two
+    short-output sets in between; file positioning (seek / skip_to_table / skip_to_results_line / readline) is a position
+    counter and read_table_line returns symbolic cells named by (result set, table, line).  Every item comes back as the
+    cells a step-through would read at its own row and column (negated for a reversed connection), paired with a time array
+    of the same length - the times of the result sets it was read from - and the reader's index is what it was before."""
+    short, with_short_sets = arg
+    tag = '[short=%s,%s]' % (short, 'with short-output sets' if with_short_sets else 'full sets only')
+    def prog(e):
+        m = e.load_module('t2listing')
+        cls = m.globals['t2listing']
+        rows_e, rows_c = ['  a 1', '  b 1', '  c 1'], [('  a 1', '  b 1'), ('  b 1', '  c 1')]
+        def table(rows, cols, allow_rev):
+            return Obj(None, row_name=list(rows), _row=dict((r, i) for i, r in enumerate(rows)), row_line=[], allow_reverse_keys=allow_rev, num_rows=len(rows),
+                       column_name=list(cols), num_columns=len(cols), _col=dict((c, i) for i, c in enumerate(cols)), row_format=None)
+        tables = {'element': table(rows_e, ['P', 'T'], False), 'connection': table(rows_c, ['Flow', 'Heat'], True)}
+        kinds = ['full', 'short', 'full', 'short', 'full'] if with_short_sets else ['full', 'full', 'full']
+        npos = len(kinds)
+        alltimes = [e.sym_real('time%d' % k) for k in range(npos)]
+        fulltimes = [t for t, k in zip(alltimes, kinds) if k == 'full']
+        state = {'ipos': None, 'table': None, 'line': 0}
+        fileobj = Obj(None)
+        fileobj.fields['seek'] = Builtin('seek', lambda eng, p: state.update(ipos=p, table=None, line=0))
+        fileobj.fields['readline'] = Builtin('file.readline', lambda eng: state.update(line=state['line'] + 1))
+        def skip_to_table(eng, tname, last, nelt):
+            state.update(table=tname, line=-1)
+        def readline(eng):
+            state['line'] += 1
+            return ('line', state['ipos'], state['table'], state['line'])
+        cells = {}
+        def read_table_line(eng, line, ncols, fmt):
+            if line not in cells:
+                cells[line] = [z3.Real('cell_%d_%s_%d_%d' % (line[1], line[2], line[3], c)) for c in range(ncols)]
+            return list(cells[line])
+        lst = Obj(cls)
+        idx0 = e.sym_int('index0', 0, len(fulltimes) - 1)
+        lst.fields.update(_table=tables, short_types=['ESHORT'] if with_short_sets else [], short_indices={'ESHORT': {0: 0, 2: 1}} if with_short_sets else {},
+                          _pos=list(range(npos)), _short=[k == 'short' for k in kinds], _file=fileobj, _index=idx0,
+                          times=NVec(list(alltimes)), fulltimes=NVec(list(fulltimes)),
+                          rewind=Builtin('rewind', lambda eng: None), skip_to_table=Builtin('skip_to_table', skip_to_table),
+                          skip_to_results_line=Builtin('skip_to_results_line', lambda eng, n: None), readline=Builtin('readline', readline),
+                          read_table_line=Builtin('read_table_line', read_table_line))
+        # items: an element row that the short output prints, one it does not, a connection by name and reversed
+        sel = [('e', '  c 1', 'T'), ('e', '  b 1', 'P'), ('c', ('  b 1', '  c 1'), 'Heat'), ('c', ('  b 1', '  a 1'), 'Flow')]
+        try:
+            res = e.call(e.getattr(lst, 'history'), [list(sel)], {'short': short})
+        except PyExc as ex:
+            e.fail('post:history_completes' + tag, 'raises %s: %s' % (ex.cls, ex.msg)); return
+        e.prove(isinstance(res, list) and len(res) == len(sel), 'post:one_series_per_item' + tag)
+        if not (isinstance(res, list) and len(res) == len(sel)):
+            return
+        # what stepping through would give: (table, line in a full set, line in a short set or None, column, sign)
+        spec = [('element', 2, 1, 1, 1), ('element', 1, None, 0, 1), ('connection', 1, None, 1, 1), ('connection', 0, None, 0, -1)]
+        okv, okt, why = True, True, ''
+        for (times, vals), (tname, fline, sline, col, sgn) in zip(res, spec):
+            vals = list(vals.items) if isinstance(vals, NVec) else list(vals)
+            tms = list(times.items) if isinstance(times, NVec) else list(times)
+            want_v, want_t = [], []
+            for ip, kind in enumerate(kinds):
+                if kind == 'short' and not (short and sline is not None):
+                    continue
+                ln = fline if kind == 'full' else sline
+                want_v.append(sgn * z3.Real('cell_%d_%s_%d_%d' % (ip, tname, ln, col)))
+                want_t.append(alltimes[ip])
+            if len(vals) != len(want_v) or not all(L.equals(e, a, b) is True or e.valid(L.equals(e, a, b)) for a, b in zip(vals, want_v)):
+                okv, why = False, 'item %s: %d values, stepping through gives %d' % (tname, len(vals), len(want_v))
+            if len(tms) != len(vals) or len(tms) != len(want_t) or not all(L.equals(e, a, b) is True for a, b in zip(tms, want_t)):
+                okt, why = False, 'item %s: %d times for %d values (stepping through: %d)' % (tname, len(tms), len(vals), len(want_t))
+        for name, ok in (('post:each_item_is_the_series_a_step_through_reads', okv), ('post:each_series_is_paired_with_the_times_it_was_read_at', okt)):
+            if ok:
+                e.prove(True, name + tag)
+            else:
+                e.fail(name + tag, why)
+        e.prove(L.equals(e, lst.fields['_index'], idx0) is True, 'post:reader_index_restored' + tag)
+    e.explore(prog, 'history_whole')
+
+
 # ---- (4) progress of the table-skipping loops --------------------------------------------
 
 def p_skip_progress(e, sim):
@@ -274,8 +353,11 @@ def p_skip_progress(e, sim):
 
 
 PROGRAMS = [('o_frame', None), ('p_ordered_selection', None), ('p_read_loop_sign', None),
-            ('p_skip_progress', 'TOUGHplus'), ('p_skip_progress', 'TOUGH2')]
+            ('p_skip_progress', 'TOUGHplus'), ('p_skip_progress', 'TOUGH2')] + \
+           [('p_history_whole', (sh, ws)) for sh, ws in ((True, True), (False, True), (True, False))]
 
 
 def replay(obname, model, result):
+    if result['program'] == 'p_history_whole':
+        return ("import sys; sys.path.insert(0, '/verif')\nfrom bounded.c06_replay import replay_history\nok, detail = replay_history()\n")
     return None
